@@ -756,3 +756,104 @@ def judge_acquisition(R, S, label, f, acq, owner=None):
     for (col, kind) in acq:
         if kind in ("borrow", "borrow_mut") and not label.startswith("Clone<"):
             R.fail("C11-R2", "%s::%s|unexpected-%s(%s)" % (name, label, kind, col), "%s takes a runtime %s of column %s; only the borrow_* accessors and clone acquire cells at run time" % (label, kind, col), where_of(f), fn=f.key)
+
+
+# ----------------------------------------------------------------------------------
+# DataPtr primitives: C02-R3 (swap_remove), shapes the extent rules rely on, C04-R7 forbidden calls
+# ----------------------------------------------------------------------------------
+def rule_dataptr_primitives(ctx, R):
+    g = ctx.gecs
+    base = ("call", "std::ptr::NonNull::<T>::as_ptr", (("load", ("field", ("deref", SELF), "0"), 0),))
+
+    def fn(name):
+        f = g.fns.get("archetype::storage::DataPtr::<T>::" + name)
+        if f is None:
+            R.anchor_missing("archetype::storage::DataPtr::<T>::" + name)
+        return f
+
+    def one(f, name):
+        ps = ctx.paths(f)
+        if ps is None or len(ps) != 1 or ps[0].end != "return":
+            R.fail("SHAPE", "DataPtr::%s|single-path" % name, "DataPtr::%s is expected to be straight-line" % name, where_of(f), fn=f.key)
+            return None
+        return ps[0]
+
+    def is_base(v):
+        v = strip_epochs(v)
+        return v == strip_epochs(base) or (is_call(v, "as_ptr") and is_call(v[2][0], "cast") and strip_epochs(v[2][0][2][0]) == strip_epochs(base[2][0]))
+
+    for name, ctor in (("slice", "from_raw_parts"), ("slice_mut", "from_raw_parts_mut"), ("raw_data", "from_raw_parts_mut")):
+        f = fn(name)
+        if f is None:
+            continue
+        p = one(f, name)
+        if p is None:
+            continue
+        ret = N(p.ret)
+        ok = is_call(ret, "slice::" + ctor) and is_base(ret[2][0]) and ret[2][1] == ("arg", 2)
+        R.check(ok, "X-EXT@prim", "DataPtr::%s" % name, "%s(len) = %s(base, len): the extent passed is the extent of the view" % (name, ctor),
+                "DataPtr::%s returns %s; expected %s(self.0, len)" % (name, show(ret), ctor), where_of(f), fn=f.key)
+    f = fn("write")
+    if f is not None:
+        p = one(f, "write")
+        if p is not None:
+            w = [e for e in p.effects if e[0] == "call" and cname(e[2]).endswith("MaybeUninit::write")]
+            ok = len(w) == 1 and is_call(N(w[0][3][0]), "add") and is_base(N(w[0][3][0])[2][0]) and N(w[0][3][0])[2][1] == ("arg", 2) and N(w[0][3][1]) == ("arg", 3)
+            R.check(ok, "C02-R3", "DataPtr::write", "write(index, val) stores val at cell index, without reading/dropping the old cell", "DataPtr::write performs %s" % [[show(N(a)) for a in e[3]] for e in w], where_of(f), fn=f.key)
+    f = fn("swap_remove")
+    if f is not None:
+        p = one(f, "swap_remove")
+        if p is not None:
+            idx, ln = ("arg", 2), ("arg", 3)
+            last = ("bin", "Sub", ln, ("const", 1))
+            ret = N(p.ret)
+            def cell(v, i):
+                return is_call(v, "add") and is_base(v[2][0]) and v[2][1] == i
+            okr = is_call(ret, "assume_init") and is_call(ret[2][0], "ptr::read") and cell(ret[2][0][2][0], idx)
+            R.check(okr, "C02-R3", "DataPtr::swap_remove|returns-cell(index)", "returns the value read out of cell `index`", "swap_remove returns %s; expected the value of cell `index`" % show(ret), where_of(f), fn=f.key)
+            cp = [e for e in p.effects if e[0] == "call" and cname(e[2]).endswith("ptr::copy")]
+            okc = len(cp) == 1 and cell(N(cp[0][3][0]), last) and cell(N(cp[0][3][1]), idx) and N(cp[0][3][2]) == ("const", 1)
+            R.check(okc, "C02-R3", "DataPtr::swap_remove|moves-last-into-hole", "copies exactly one cell from `len-1` into `index`",
+                    "swap_remove copies %s; expected copy(src = cell len-1, dst = cell index, 1)" % [[show(N(a)) for a in e[3]] for e in cp], where_of(f), fn=f.key)
+            rd = [e for e in p.effects if e[0] == "call" and cname(e[2]).endswith("ptr::read")]
+            if rd and cp:
+                R.check(p.effects.index(rd[0]) < p.effects.index(cp[0]), "C02-R3", "DataPtr::swap_remove|read-before-copy", "the removed value is read before the hole is overwritten", "the copy precedes the read of the removed value", where_of(f), fn=f.key)
+            dr = [e for e in p.effects if e[0] == "call" and (cname(e[2]).endswith("drop_in_place") or cname(e[2]).endswith("mem::drop"))] + [e for e in p.effects if e[0] == "drop" and e[6]]
+            R.check(not dr, "C04-R1", "DataPtr::swap_remove|no-drop", "the removed value is handed to the caller, never dropped here", "swap_remove drops a value itself", where_of(f), fn=f.key)
+            stores = [e for e in p.effects if e[0] == "store" and e[5] == f.key]
+            okst = all(cell(N(("call",) + () if False else e[1][1]), last) if e[1][0] == "deref" else False for e in stores)
+            R.check(okst, "C02-R3", "DataPtr::swap_remove|only-marks-last", "besides the copy, only the vacated last cell is written (uninit marker)", "swap_remove also stores to %s" % [show(("load", NL(e[1]), 0))[:80] for e in stores], where_of(f), fn=f.key)
+    f = fn("ptr_data")
+    if f is not None:
+        p = one(f, "ptr_data")
+        if p is not None:
+            R.check(is_base(N(p.ret)), "C06-R1", "DataPtr::ptr_data", "ptr_data = base pointer of the array", "ptr_data returns %s" % show(N(p.ret)), where_of(f), fn=f.key)
+
+
+FORBIDDEN_CALLS = ("mem::forget", "ManuallyDrop::new", "Box::leak", "Ref::leak", "RefMut::leak", "Vec::leak", "RefCell::as_ptr", "RefCell::try_borrow_unguarded", "UnsafeCell::get", "UnsafeCell::raw_get",
+                   "Rc::into_raw", "Box::into_raw", "mem::zeroed", "MaybeUninit::zeroed", "ptr::null_mut", "intrinsics::forget")
+
+
+def rule_forbidden_calls(ctx, R):
+    """C04-R7 / X-FORBID: expected count zero, with a positive fixture."""
+    def scan(crate, label):
+        n = 0
+        for path, fn in sorted(crate.fns.items()):
+            for b in fn.blocks:
+                t = b["t"]
+                if t["k"] != "call" or t["f"].get("indirect"):
+                    continue
+                n += 1
+                cn = cname(t["f"]["path"])
+                bad = [x for x in FORBIDDEN_CALLS if cn == x or cn.endswith("::" + x)]
+                if bad:
+                    R.fail("C04-R7", "%s|%s|%s" % (label, fn.short(), bad[0]), "%s calls %s: values must neither be forgotten/leaked nor reached around their RefCell" % (path, bad[0]), where_of(fn, t["s"]), fn=fn.key)
+        return n
+    n = scan(ctx.gecs, "gecs")
+    if ctx.spec is not None:
+        n += scan(ctx.spec, "expansion")
+    R.check(n > 5000, "C04-R7", "forbidden-calls|scanned", "%d call sites scanned, none forbidden" % n, "only %d call sites scanned" % n, None)
+    # positive fixture: the matcher recognises the forbidden names
+    fixture = ["std::mem::forget", "std::mem::ManuallyDrop::<T>::new", "std::cell::Ref::<'b, T>::leak", "std::cell::RefCell::<T>::as_ptr"]
+    hit = [p for p in fixture if any(cname(p) == x or cname(p).endswith("::" + x) for x in FORBIDDEN_CALLS)]
+    R.check(len(hit) == len(fixture), "C04-R7", "forbidden-calls|fixture", "matcher fires on the positive fixture", "matcher misses %s" % [p for p in fixture if p not in hit], None)
